@@ -31,11 +31,14 @@ Arguments N.modulo : simpl never. Arguments N.sub : simpl never. Arguments N.eqb
 (* 1. the tick facts of one connected client, and its frame           *)
 (* ================================================================== *)
 
-Record tfacts (Psi : N -> Prop) (c : client) (lupd : list update_msg) (lmut : list mutate_msg) : Prop := mkTF {
+(* [UP]: what is known about the pending update messages besides their ticks (no pre-spawn mappings, or harmless ones) *)
+Definition nomapsP (u : update_msg) : Prop := u_maps u = [].
+
+Record tfacts (UP : update_msg -> Prop) (Psi : N -> Prop) (c : client) (lupd : list update_msg) (lmut : list mutate_msg) : Prop := mkTF {
   tf_cli : exists W, cli W (fun t => Psi t /\ below (cl_inbox_upd c ++ lupd) t) c;
   tf_upd : (Psi (cl_upd_tick c) /\ below (cl_inbox_upd c ++ lupd) (cl_upd_tick c)) \/ cl_s2c c = [];
   tf_incr : ticks_incr (cl_inbox_upd c ++ lupd);
-  tf_U : forall u, In u (cl_inbox_upd c ++ lupd) -> u_maps u = [] /\ Psi (u_tick u);
+  tf_U : forall u, In u (cl_inbox_upd c ++ lupd) -> UP u /\ Psi (u_tick u);
   tf_M : forall m, In m (lmut ++ cl_inbox_mut c ++ cl_buffered c) -> Psi (m_tick m) /\ m_upd_tick m < 2 ^ 31;
   tf_gate : forall m u, In m (lmut ++ cl_inbox_mut c ++ cl_buffered c) -> In u (cl_inbox_upd c ++ lupd) ->
             u_tick u <= m_upd_tick m \/ m_tick m < u_tick u
@@ -45,20 +48,20 @@ Section TFrame.
   Variable Psi : N -> Prop.
   Hypothesis HPsi : forall t, Psi t -> t < 2 ^ 31.
 
-  Lemma tfacts_inbox c lupd lmut : tfacts Psi c lupd lmut ->
+  Lemma tfacts_inbox c lupd lmut : tfacts nomapsP Psi c lupd lmut ->
     fold_left (res_step apply_update_message) (cl_inbox_upd c) (Ok c) <> Panic.
   Proof.
     intros [[W Hw] _ Hincr HU _ _].
     refine (proj1 (inbox_safe W Psi (cl_inbox_upd c) lupd c Hincr _ Hw)).
-    intros u Hu. destruct (HU u (in_or_app _ _ _ (or_introl Hu))) as [A B]. split; [exact (HPsi _ B)|]. auto.
+    intros u Hu. destruct (HU u (in_or_app _ _ _ (or_introl Hu))) as [A B]. split; [exact (HPsi _ B)|]. split; [exact A|exact B].
   Qed.
 
-  Theorem tfacts_frame c lupd lmut ops c' out : cl_status c = Connected -> tfacts Psi c lupd lmut ->
-    client_frame c ops = Ok (c', out) -> tfacts Psi c' lupd lmut.
+  Theorem tfacts_frame c lupd lmut ops c' out : cl_status c = Connected -> tfacts nomapsP Psi c lupd lmut ->
+    client_frame c ops = Ok (c', out) -> tfacts nomapsP Psi c' lupd lmut.
   Proof.
     intros Hcc [[W Hw] Hd Hincr HU HM Hgate] Efr.
     assert (HI : forall u, In u (cl_inbox_upd c) -> u_tick u < 2 ^ 31 /\ u_maps u = [] /\ Psi (u_tick u)).
-    { intros u Hu. destruct (HU u (in_or_app _ _ _ (or_introl Hu))) as [A B]. split; [exact (HPsi _ B)|]. auto. }
+    { intros u Hu. destruct (HU u (in_or_app _ _ _ (or_introl Hu))) as [A B]. split; [exact (HPsi _ B)|]. split; [exact A|exact B]. }
     set (uf := last (map u_tick (cl_inbox_upd c)) (cl_upd_tick c)).
     assert (HG : (below lupd uf /\ Psi uf) \/ (cl_s2c c = [] /\ cl_inbox_upd c = [])).
     { assert (Hcase : cl_inbox_upd c = [] \/ cl_inbox_upd c <> []) by (destruct (cl_inbox_upd c); [left; reflexivity|right; discriminate]).
@@ -225,10 +228,10 @@ Definition srv_facts (s : server) (slot : N) (P : list update_msg) : Prop :=
     if sc_authorized r then (forall u, In u P -> u_tick u <= ct_update_tick (sc_ticks r)) /\ ct_update_tick (sc_ticks r) <= sv_tick s
     else P = [].
 
-Record slot_all (track : bool) (TB : N) (s : server) (slot : N) (lupd : list update_msg) (lmut : list mutate_msg) (c : client) : Prop := mkSA {
+Record slot_all (UP : update_msg -> Prop) (track : bool) (TB : N) (s : server) (slot : N) (lupd : list update_msg) (lmut : list mutate_msg) (c : client) : Prop := mkSA {
   sa_tk : tk (fun m => psiS TB s slot (m_tick m)) c lmut;
   sa_track : cl_mticks c <> None -> track = true;
-  sa_tf : cl_status c = Connected -> tfacts (psiS TB s slot) c lupd lmut /\ srv_facts s slot (cl_inbox_upd c ++ lupd)
+  sa_tf : cl_status c = Connected -> tfacts UP (psiS TB s slot) c lupd lmut /\ srv_facts s slot (cl_inbox_upd c ++ lupd)
 }.
 
 Lemma psiS_mono TB TB' s s' slot t : TB <= TB' -> (forall t0, used s t0 -> used s' t0) ->
@@ -250,12 +253,12 @@ Proof.
   apply Permutation_app_tail. exact Hp.
 Qed.
 
-Lemma tfacts_ext (Psi Psi' : N -> Prop) c c' lupd lupd' lmut lmut' dropped :
-  tfacts Psi c lupd lmut -> (forall t, Psi t -> Psi' t) ->
+Lemma tfacts_ext UP (Psi Psi' : N -> Prop) c c' lupd lupd' lmut lmut' dropped :
+  tfacts UP Psi c lupd lmut -> (forall t, Psi t -> Psi' t) ->
   cl_s2c c' = cl_s2c c -> cl_ents c' = cl_ents c -> cl_next c' = cl_next c -> cl_upd_tick c' = cl_upd_tick c ->
   cl_inbox_upd c ++ lupd = (cl_inbox_upd c' ++ lupd') ++ dropped ->
   (forall m, In m (lmut' ++ cl_inbox_mut c' ++ cl_buffered c') -> In m (lmut ++ cl_inbox_mut c ++ cl_buffered c)) ->
-  tfacts Psi' c' lupd' lmut'.
+  tfacts UP Psi' c' lupd' lmut'.
 Proof.
   intros [[W Hw] Hd Hincr HU HM Hgate] HP E1 E2 E3 E4 EP HQ.
   assert (Hsub : forall u, In u (cl_inbox_upd c' ++ lupd') -> In u (cl_inbox_upd c ++ lupd)) by (intros u Hu; rewrite EP; apply in_or_app; left; exact Hu).
@@ -280,15 +283,15 @@ Proof.
 Qed.
 
 (* a step that keeps a slot's client up to inbox / queue movements, and does not add messages *)
-Lemma slot_all_keep track TB TB' s s' slot lupd lupd' lmut lmut' c c' dropped :
-  slot_all track TB s slot lupd lmut c -> TB <= TB' -> (forall t, used s t -> used s' t) ->
+Lemma slot_all_keep UP track TB TB' s s' slot lupd lupd' lmut lmut' c c' dropped :
+  slot_all UP track TB s slot lupd lmut c -> TB <= TB' -> (forall t, used s t -> used s' t) ->
   (find_client s' slot <> None -> find_client s slot <> None) ->
   cl_status c' = cl_status c -> cl_mticks c' = cl_mticks c ->
   cl_s2c c' = cl_s2c c -> cl_ents c' = cl_ents c -> cl_next c' = cl_next c -> cl_upd_tick c' = cl_upd_tick c ->
   (cl_status c = Connected -> cl_inbox_upd c ++ lupd = (cl_inbox_upd c' ++ lupd') ++ dropped) ->
   (exists extra, Permutation (cl_buffered c ++ cl_inbox_mut c ++ lmut) (cl_buffered c' ++ cl_inbox_mut c' ++ lmut' ++ extra)) ->
   (cl_status c = Connected -> srv_facts s slot (cl_inbox_upd c ++ lupd) -> srv_facts s' slot (cl_inbox_upd c' ++ lupd')) ->
-  slot_all track TB' s' slot lupd' lmut' c'.
+  slot_all UP track TB' s' slot lupd' lmut' c'.
 Proof.
   intros [A1 A2 A3] Hle Hu Hr Es Em E1 E2 E3 E4 EP Hperm Hsrv.
   assert (HP : forall t, psiS TB s slot t -> psiS TB' s' slot t) by (intros t; apply psiS_mono; assumption).
@@ -296,7 +299,7 @@ Proof.
   - apply (tk_ext _ _ c c' lmut lmut' A1 Em); [intros m; apply HP|exact Hperm].
   - rewrite Em. exact A2.
   - intros Hc. rewrite Es in Hc. destruct (A3 Hc) as [T1 T2]. split; [|exact (Hsrv Hc T2)].
-    destruct Hperm as [extra Hp]. exact (tfacts_ext _ _ c c' lupd lupd' lmut lmut' dropped T1 HP E1 E2 E3 E4 (EP Hc) (perm_in3 _ _ _ _ _ _ _ Hp)).
+    destruct Hperm as [extra Hp]. exact (tfacts_ext UP _ _ c c' lupd lupd' lmut lmut' dropped T1 HP E1 E2 E3 E4 (EP Hc) (perm_in3 _ _ _ _ _ _ _ Hp)).
 Qed.
 
 Lemma srv_facts_same s s' slot P P' : find_client s' slot = find_client s slot -> sv_tick s <= sv_tick s' ->
@@ -306,13 +309,13 @@ Proof.
   destruct H as [H1 H2]. split; [intros u Hu; exact (H1 u (Hsub u Hu))|lia].
 Qed.
 
-Section AllRun.
-  Variables (cfg0 : cfg) (nclients : N).
+Section AllGen.
+  Variables (cfg0 : cfg) (nclients : N) (UP : update_msg -> Prop).
   Notation track := (cfg_track cfg0).
 
   Definition all_inv (script : list step) (y : sys) : Prop :=
     forall slot c, al_get slot (y_clients y) = Some c ->
-      slot_all track (tick_frames script) (y_server y) slot (l_upd (get_link y slot)) (l_mut (get_link y slot)) c.
+      slot_all UP track (tick_frames script) (y_server y) slot (l_upd (get_link y slot)) (l_mut (get_link y slot)) c.
 
   Lemma all_keep script st y y' :
     all_inv script y ->
@@ -330,7 +333,7 @@ Section AllRun.
     all_inv (script ++ [st]) y'.
   Proof.
     intros Hinv Hu Hcl slot c' Hc'. destruct (Hcl slot c' Hc') as (c & dropped & Hc & Hr & Es & Em & E1 & E2 & E3 & E4 & EP & Hperm & Hsrv).
-    exact (slot_all_keep track _ _ _ _ slot _ _ _ _ c c' dropped (Hinv slot c Hc) (tick_frames_mono script st) Hu Hr Es Em E1 E2 E3 E4 EP Hperm Hsrv).
+    exact (slot_all_keep UP track _ _ _ _ slot _ _ _ _ c c' dropped (Hinv slot c Hc) (tick_frames_mono script st) Hu Hr Es Em E1 E2 E3 E4 EP Hperm Hsrv).
   Qed.
 
   (* the obligations of [all_keep] for a slot whose client and link are untouched *)
@@ -417,7 +420,7 @@ Section AllRun.
       unfold clear_link. rewrite get_link_set_link_other by exact Hne.
       change (get_link (set_client ?a ?b ?c) slot) with (get_link a slot). change (get_link (set_server ?a ?b) slot) with (get_link a slot).
       cbn [set_link set_client set_server y_server].
-      refine (slot_all_keep track _ _ _ _ slot _ _ _ _ c' c' [] (Hinv slot c' Hc') (tick_frames_mono script _) Hu _ eq_refl eq_refl eq_refl eq_refl eq_refl eq_refl _ _ _).
+      refine (slot_all_keep UP track _ _ _ _ slot _ _ _ _ c' c' [] (Hinv slot c' Hc') (tick_frames_mono script _) Hu _ eq_refl eq_refl eq_refl eq_refl eq_refl eq_refl _ _ _).
       + rewrite find_client_disconnect. replace (slot =? slot0) with false by lia. auto.
       + intros _. rewrite app_nil_r. reflexivity.
       + exists []. rewrite app_nil_r. apply Permutation_refl.
@@ -530,16 +533,16 @@ Section AllRun.
     - destruct (sc_slot a =? k); [discriminate|exact (IH Hn)].
   Qed.
 
-  Lemma all_connect script y gs slot0 max y' o :
-    f_inv cfg0 nclients script y gs ->
+  Lemma all_connect script y slot0 max y' o :
+    (forall cl, al_get slot0 (y_clients y) = Some cl -> find_client (y_server y) slot0 = None ->
+        cl_status cl = Disconnected /\ ents_fresh cl) ->
     (forall cl, al_get slot0 (y_clients y) = Some cl -> cl_status cl = Disconnected ->
         cl_s2c cl = [] /\ cl_buffered cl = [] /\ cl_inbox_upd cl = [] /\ cl_inbox_mut cl = [] /\
         cl_mticks cl = (if track then Some mt_default else None) /\
         l_upd (get_link y slot0) = [] /\ l_mut (get_link y slot0) = []) ->
-    sess_step_ok script (StConnect slot0 max) = true ->
     all_inv script y -> sys_step y (StConnect slot0 max) = Ok (y', o) -> all_inv (script ++ [StConnect slot0 max]) y'.
   Proof.
-    intros Hf Hclean Hs Hinv H.
+    intros Hdisc Hclean Hinv H.
     assert (Hnoop : all_inv (script ++ [StConnect slot0 max]) y).
     { apply (all_keep script _ y); [exact Hinv|intros t H0; exact H0|]. intros slot c' Hc'. apply (keep_untouched y); auto. apply N.le_refl. }
     cbn [sys_step] in H. destruct (find_client (y_server y) slot0) as [r0|] eqn:Ef; [inversion H; subst y' o; exact Hnoop|].
@@ -553,18 +556,13 @@ Section AllRun.
     assert (Hu : forall t, used (y_server y) t -> used (connect_client (y_cfg y) (y_server y) slot0 max) t) by (intros t; apply used_flags; assumption).
     destruct (N.eq_dec slot slot0) as [->|Hne].
     2:{ rewrite al_get_insert_other in Hc' by exact Hne.
-        refine (slot_all_keep track _ _ _ _ slot _ _ _ _ c' c' [] (Hinv slot c' Hc') (tick_frames_mono script _) Hu _ eq_refl eq_refl eq_refl eq_refl eq_refl eq_refl _ _ _).
+        refine (slot_all_keep UP track _ _ _ _ slot _ _ _ _ c' c' [] (Hinv slot c' Hc') (tick_frames_mono script _) Hu _ eq_refl eq_refl eq_refl eq_refl eq_refl eq_refl _ _ _).
         - rewrite find_client_connect by exact Hne. auto.
         - intros _. rewrite app_nil_r. reflexivity.
         - exists []. rewrite app_nil_r. apply Permutation_refl.
         - intros _. apply srv_facts_same; auto; [rewrite find_client_connect by exact Hne; reflexivity|lia]. }
     rewrite al_get_insert_same in Hc'. inversion Hc'; subst c'. clear Hc'.
-    pose proof (fi_slots _ _ _ _ _ Hf slot0 cl Ec) as [_ [_ Hfresh] _ Hmi].
-    assert (Hd : cl_status cl = Disconnected).
-    { destruct (status_dec cl) as [Hd|Hd]; [exact Hd|]. exfalso. destruct (mode_connect script slot0 max slot0 Hs) as [_ Hpre].
-      destruct (Hpre eq_refl) as [Hp|Hp]; rewrite Hp in Hmi; cbn [mode_inv] in Hmi.
-      - destruct Hmi as (A & _). congruence.
-      - destruct Hmi as (A & _). apply (proj2 A) in Hd. apply has_rec_find in Hd. congruence. }
+    destruct (Hdisc cl eq_refl eq_refl) as [Hd Hfresh].
     destruct (Hclean cl eq_refl Hd) as (K1 & K2 & K3 & K4 & K5 & K6 & K7). rewrite K6, K7.
     assert (Es2c : cl_s2c (set_status cl Connected) = []) by exact K1.
     assert (Ebuf : cl_buffered (set_status cl Connected) = []) by exact K2.
@@ -578,7 +576,7 @@ Section AllRun.
     - rewrite Emt. destruct track; congruence.
     - intros _. rewrite Eiu. cbn [app]. split.
       + constructor; rewrite ?Eiu; cbn [app].
-        * exists (cl_next (set_status cl Connected)). apply cli_fresh; [exact Es2c|exact Hfresh].
+        * exists (fun cid => cl_next (set_status cl Connected) <= cid). apply cli_fresh; [exact Es2c|exact Hfresh].
         * right. exact Es2c.
         * apply ticks_incr_nil.
         * intros u [].
@@ -598,9 +596,11 @@ Section AllRun.
   Qed.
 
   Lemma all_cframe script y slot0 ops y' o : tick_frames script < 2 ^ 31 -> all_inv script y ->
+    (forall cl cl' cfo (Psi : N -> Prop) lupd lmut, al_get slot0 (y_clients y) = Some cl -> client_frame cl ops = Ok (cl', cfo) ->
+        cl_status cl = Connected -> (forall t, Psi t -> t < 2 ^ 31) -> tfacts UP Psi cl lupd lmut -> tfacts UP Psi cl' lupd lmut) ->
     sys_step y (StCFrame slot0 ops) = Ok (y', o) -> all_inv (script ++ [StCFrame slot0 ops]) y'.
   Proof.
-    intros Hb Hinv H.
+    intros Hb Hinv Hframe H.
     destruct (al_get slot0 (y_clients y)) as [cl|] eqn:Ec.
     2:{ cbn [sys_step] in H. rewrite Ec in H. inversion H; subst y' o.
         apply (all_keep script _ y); [exact Hinv|intros t H0; exact H0|]. intros slot c' Hc'. apply (keep_untouched y); auto. apply N.le_refl. }
@@ -613,7 +613,7 @@ Section AllRun.
     assert (Efc : forall k, find_client (publish_pre (y_server y) slot0 pcs) k = find_client (y_server y) k) by (intros k; apply find_client_ext; reflexivity).
     destruct (N.eq_dec slot slot0) as [->|Hne].
     2:{ rewrite al_get_insert_other in Hc' by exact Hne.
-        refine (slot_all_keep track _ _ _ _ slot _ _ _ _ c' c' [] (Hinv slot c' Hc') (tick_frames_mono script _) Hu _ eq_refl eq_refl eq_refl eq_refl eq_refl eq_refl _ _ _).
+        refine (slot_all_keep UP track _ _ _ _ slot _ _ _ _ c' c' [] (Hinv slot c' Hc') (tick_frames_mono script _) Hu _ eq_refl eq_refl eq_refl eq_refl eq_refl eq_refl _ _ _).
         - rewrite Efc. auto.
         - intros _. rewrite app_nil_r. reflexivity.
         - exists []. rewrite app_nil_r. apply Permutation_refl.
@@ -630,10 +630,10 @@ Section AllRun.
     - intros Hc'. assert (Hcc : cl_status cl = Connected) by (rewrite <- (client_frame_status cl ops cl' cfo Efr); exact Hc').
       destruct (A3 Hcc) as [T1 T2].
       assert (HPsi : forall t, psiS (tick_frames script) (y_server y) slot0 t -> t < 2 ^ 31) by (intros t [X _]; lia).
-      pose proof (tfacts_frame _ HPsi cl _ _ ops cl' cfo Hcc T1 Efr) as T1'.
+      pose proof (Hframe cl cl' cfo _ _ _ eq_refl Efr Hcc HPsi T1) as T1'.
       destruct (frame_clears_inbox cl ops cl' cfo Hcc Efr) as [Ei _].
       split.
-      + apply (tfacts_ext _ _ cl' cl' _ _ _ _ [] T1' HP); try reflexivity; [rewrite app_nil_r; reflexivity|auto].
+      + apply (tfacts_ext UP _ _ cl' cl' _ _ _ _ [] T1' HP); try reflexivity; [rewrite app_nil_r; reflexivity|auto].
       + rewrite Ei. cbn [app]. apply (srv_facts_same (y_server y) _ slot0 (cl_inbox_upd cl ++ l_upd (get_link y slot0))); auto.
         * apply N.le_refl.
         * intros u Hu0. apply in_or_app. right. exact Hu0.
@@ -709,23 +709,36 @@ Section AllRun.
       + intros o1 Ho1. rewrite N8 in Ho1. destruct Ho1.
   Qed.
 
-  Lemma all_sframe script y gs tick dt (cleanup : bool) ops parts y' o :
-    f_inv cfg0 nclients script y gs -> all_inv script y -> forallb sop_ok ops = true ->
+  (* what a server frame does, as far as the invariant is concerned (instances: `f_inv` / `g_inv`) *)
+  Definition sframe_facts (script : list step) (y : sys) tick dt (cleanup : bool) ops parts : Prop :=
+    y_cfg y = cfg0 /\ sv_tick (y_server y) <= tick_frames script /\ NoDup (map sc_slot (sv_clients (y_server y))) /\
+    forall s' fo, server_frame cfg0 (y_server y) tick dt cleanup ops parts = Ok (s', fo) ->
+      (forall slot, has_rec s' slot -> has_rec (y_server y) slot) /\
+      NoDup (map co_slot (fo_clients fo)) /\
+      (forall o, In o (fo_clients fo) -> has_auth s' (co_slot o)) /\
+      (forall o u, In o (fo_clients fo) -> co_update o = Some u -> UP u /\ u_tick u = sv_tick s') /\
+      forall slot,
+        let nct := fun r => match upd_for slot (fo_clients fo) with Some u => u_tick u | None => ct_update_tick (sc_ticks r) end in
+        (forall r', find_client s' slot = Some r' -> exists r, find_client (y_server y) slot = Some r /\ sc_authorized r' = sc_authorized r /\
+            (sc_authorized r = true -> ct_update_tick (sc_ticks r') = nct r)) /\
+        (forall o1, In o1 (fo_clients fo) -> co_slot o1 = slot -> exists r, find_client (y_server y) slot = Some r /\ sc_authorized r = true /\
+            forall m', In m' (co_mutates o1) -> m_upd_tick m' = nct r).
+
+  Lemma all_sframe script y tick dt (cleanup : bool) ops parts y' o :
+    sframe_facts script y tick dt cleanup ops parts -> all_inv script y ->
     parts_small_step (StSFrame tick dt cleanup ops parts) = true ->
     tick_frames (script ++ [StSFrame tick dt cleanup ops parts]) < 2 ^ 31 ->
     sys_step y (StSFrame tick dt cleanup ops parts) = Ok (y', o) ->
     all_inv (script ++ [StSFrame tick dt cleanup ops parts]) y'.
   Proof.
-    intros Hf Hinv Hops Hps Hbound H. pose proof Hf as [Hcfg Hg Hnm Htk Hslots].
+    intros (Hcfg & Htk & Hnd & Hsf) Hinv Hps Hbound H.
     assert (Etf : tick_frames (script ++ [StSFrame tick dt cleanup ops parts]) = (if tick then tick_frames script + 1 else tick_frames script))
       by (rewrite tick_frames_snoc; destruct tick; reflexivity).
     rewrite Etf in Hbound.
     cbn [sys_step] in H. rewrite Hcfg in H. set (s := y_server y) in *.
     destruct (server_frame cfg0 s tick dt cleanup ops parts) as [[s' fo]| |] eqn:Ef; cbn [bind] in H; try discriminate.
     inversion H; subst y' o. clear H. set (outs := fo_clients fo) in *.
-    pose proof (gv_slots _ Hg) as Hnd. cbn [g_srv] in Hnd.
-    destruct (server_frame_clients_v cfg0 (mkG s gs) tick dt cleanup ops parts s' fo Hg Hnm Hops Ef) as (_ & _ & N3 & _ & N5 & N6 & N7 & _).
-    cbn [g_srv] in *. fold outs in N5, N6, N7.
+    destruct (Hsf s' fo eq_refl) as (N3 & N5 & N6 & N7 & Hrecs). fold outs in N5, N6, N7, Hrecs.
     destruct (server_frame_mt cfg0 s tick dt cleanup ops parts s' fo Hnd Ef) as (M1 & _ & M3 & _ & M5 & _ & M7). cbv zeta in M3, M5. fold outs in M5, M7.
     destruct (enqueue_fields outs (set_server y s')) as (_ & EQ2 & EQ3).
     pose proof Npow31 as P31. pose proof Npow32 as P32.
@@ -735,7 +748,7 @@ Section AllRun.
     intros slot c Hc. rewrite EQ3 in Hc. cbn [set_server y_clients] in Hc. rewrite EQ2. cbn [set_server y_server].
     rewrite enqueue_lupd, enqueue_lmut. change (get_link (set_server y s') slot) with (get_link y slot).
     rewrite (updates_for_upd_for slot outs N5). rewrite Etf.
-    destruct (sframe_records s gs tick dt cleanup ops parts s' fo slot Hg Hnm Hops Ef) as [RT MT]. cbv zeta in RT, MT. fold outs in RT, MT.
+    destruct (Hrecs slot) as [RT MT]. cbv zeta in RT, MT.
     set (TB := tick_frames script) in *. set (TB' := if tick then TB + 1 else TB).
     destruct (Hinv slot c Hc) as [A1 A2 A3]. fold TB in A1, A3.
     assert (HTB : TB <= TB') by (unfold TB'; destruct tick; lia).
@@ -764,7 +777,7 @@ Section AllRun.
     { intros o1 Ho1 Eso. destruct (Hsent o1 Ho1 Eso) as (_ & _ & Et & _ & Hle). split; [exact Hle|]. intros _. unfold used. rewrite M1, Et. lia. }
     assert (Hnt : forall m, In m (mutates_for slot outs) -> m_tick m = t1) by (intros m Hm; destruct (Hnewm m Hm) as (_ & _ & _ & _ & E); exact E).
     remember (upd_for slot outs) as ou eqn:Eu. symmetry in Eu.
-    assert (Hou : forall u', ou = Some u' -> exists o1, In o1 outs /\ co_slot o1 = slot /\ u_maps u' = [] /\ u_tick u' = t1).
+    assert (Hou : forall u', ou = Some u' -> exists o1, In o1 outs /\ co_slot o1 = slot /\ UP u' /\ u_tick u' = t1).
     { intros u' E. subst ou. destruct (upd_for_in slot outs u' E) as (o1 & Ho1 & Eso & Eo1). destruct (N7 o1 u' Ho1 Eo1) as [X1 X2].
       destruct (Hsent o1 Ho1 Eso) as (_ & _ & Et & _). exists o1. repeat split; auto. congruence. }
     constructor.
@@ -865,12 +878,33 @@ Section AllRun.
     - cbn [client_init cl_status]. discriminate.
   Qed.
 
+End AllGen.
+
+(* ================================================================== *)
+(* 4. scripts without pre-spawn mappings (`script_okf`)               *)
+(* ================================================================== *)
+
+Section AllRun.
+  Variables (cfg0 : cfg) (nclients : N).
+  Notation track := (cfg_track cfg0).
+  Notation all_inv := (all_inv cfg0 nomapsP).
+
+  Lemma sframe_facts_f script y gs tick dt (cleanup : bool) ops parts :
+    f_inv cfg0 nclients script y gs -> forallb sop_ok ops = true -> sframe_facts cfg0 nomapsP script y tick dt cleanup ops parts.
+  Proof.
+    intros [Hcfg Hg Hnm Htk Hslots] Hops. split; [exact Hcfg|]. split; [exact Htk|]. split; [exact (gv_slots _ Hg)|].
+    intros s' fo Ef.
+    destruct (server_frame_clients_v cfg0 (mkG (y_server y) gs) tick dt cleanup ops parts s' fo Hg Hnm Hops Ef) as (_ & _ & N3 & _ & N5 & N6 & N7 & _).
+    cbn [g_srv] in *. split; [exact N3|]. split; [exact N5|]. split; [exact N6|]. split; [exact N7|].
+    intros slot. exact (sframe_records cfg0 (y_server y) gs tick dt cleanup ops parts s' fo slot Hg Hnm Hops Ef).
+  Qed.
+
   Theorem all_run script : forall y,
     script_okf script = true -> parts_small script = true -> tick_frames script < 2 ^ 31 ->
     run (sys_init cfg0 nclients) script = Ok y -> all_inv script y.
   Proof.
     induction script as [|st t IH] using rev_ind; intros y Hok Hps Hb H.
-    - cbn in H. inversion H; subst. exact all_init.
+    - cbn in H. inversion H; subst. exact (all_init cfg0 nclients nomapsP).
     - destruct (okf_snoc t st Hok) as (Hok1 & L2 & M2 & S2).
       unfold parts_small in Hps. rewrite forallb_app in Hps. apply andb_prop in Hps. destruct Hps as [Hps1 Hps2].
       cbn [forallb] in Hps2. rewrite andb_true_r in Hps2.
@@ -882,22 +916,28 @@ Section AllRun.
       destruct (run_erun_s t (sys_init cfg0 nclients) [] y1 E1) as [gs1 Eg].
       pose proof (f_run cfg0 nclients t y1 gs1 Hok1 Hb1 Eg) as Hf.
       destruct st as [| |slot max|slot|slot|tick dt cleanup ops parts|slot ops|slot s2c ch w|slot s2c ch w].
-      + cbn [sys_step] in E2. inversion E2; subst y2 o. exact (all_start t y1 Hall).
-      + exact (all_stop t y1 y2 o Hall E2).
-      + refine (all_connect t y1 gs1 slot max y2 o Hf _ S2 Hall E2).
-        intros cl Hc Hd. destruct (run_mrun t (sys_init cfg0 nclients) mgs_empty y1 E1) as [G1 Em].
-        destruct (mode_connect t slot max slot S2) as [_ Hpre].
-        assert (Hmode : mode_of t slot = MClean \/ mode_of t slot = MLive /\ cl_status cl = Disconnected).
-        { destruct (Hpre eq_refl) as [Hp|Hp]; [left; exact Hp|right; auto]. }
-        destruct (run_clean_is_initial cfg0 nclients t y1 G1 slot cl (okf_sessions t Hok1) Hps1 Hb1 Em Hc Hmode) as (Hrs & _ & Hlm & Hlu & _).
-        unfold repl_state in Hrs. cbn [client_init cl_status cl_last_connected cl_last_not_disconnected cl_upd_tick cl_s2c cl_c2s cl_buffered cl_mticks cl_inbox_upd cl_inbox_mut] in Hrs.
-        injection Hrs as R1 R2 R3 R4 R5 R6 R7 R8 R9 R10. repeat split; assumption.
-      + cbn [sys_step] in E2. inversion E2; subst y2 o. exact (all_authorize t y1 slot Hall).
-      + exact (all_disconnect t y1 slot y2 o Hall E2).
-      + exact (all_sframe t y1 gs1 tick dt cleanup ops parts y2 o Hf Hall M2 Hps2 Hb E2).
-      + exact (all_cframe t y1 slot ops y2 o Hb1 Hall E2).
-      + exact (all_transport t (StDeliver slot s2c ch w) y1 y2 o eq_refl L2 Hall E2).
-      + exact (all_transport t (StDrop slot s2c ch w) y1 y2 o eq_refl L2 Hall E2).
+      + cbn [sys_step] in E2. inversion E2; subst y2 o. exact (all_start cfg0 nomapsP t y1 Hall).
+      + exact (all_stop cfg0 nomapsP t y1 y2 o Hall E2).
+      + refine (all_connect cfg0 nomapsP t y1 slot max y2 o _ _ Hall E2).
+        * intros cl Hc Ef. pose proof (fi_slots _ _ _ _ _ Hf slot cl Hc) as [_ [_ Hfresh] _ Hmi]. split; [|exact Hfresh].
+          destruct (status_dec cl) as [Hd|Hd]; [exact Hd|]. exfalso. destruct (mode_connect t slot max slot S2) as [_ Hpre].
+          destruct (Hpre eq_refl) as [Hp|Hp]; rewrite Hp in Hmi; cbn [mode_inv] in Hmi.
+          -- destruct Hmi as (A & _). congruence.
+          -- destruct Hmi as (A & _). apply (proj2 A) in Hd. apply has_rec_find in Hd. congruence.
+        * intros cl Hc Hd. destruct (run_mrun t (sys_init cfg0 nclients) mgs_empty y1 E1) as [G1 Em].
+          destruct (mode_connect t slot max slot S2) as [_ Hpre].
+          assert (Hmode : mode_of t slot = MClean \/ mode_of t slot = MLive /\ cl_status cl = Disconnected).
+          { destruct (Hpre eq_refl) as [Hp|Hp]; [left; exact Hp|right; auto]. }
+          destruct (run_clean_is_initial cfg0 nclients t y1 G1 slot cl (okf_sessions t Hok1) Hps1 Hb1 Em Hc Hmode) as (Hrs & _ & Hlm & Hlu & _).
+          unfold repl_state in Hrs. cbn [client_init cl_status cl_last_connected cl_last_not_disconnected cl_upd_tick cl_s2c cl_c2s cl_buffered cl_mticks cl_inbox_upd cl_inbox_mut] in Hrs.
+          injection Hrs as R1 R2 R3 R4 R5 R6 R7 R8 R9 R10. repeat split; assumption.
+      + cbn [sys_step] in E2. inversion E2; subst y2 o. exact (all_authorize cfg0 nomapsP t y1 slot Hall).
+      + exact (all_disconnect cfg0 nomapsP t y1 slot y2 o Hall E2).
+      + exact (all_sframe cfg0 nomapsP t y1 tick dt cleanup ops parts y2 o (sframe_facts_f t y1 gs1 tick dt cleanup ops parts Hf M2) Hall Hps2 Hb E2).
+      + refine (all_cframe cfg0 nomapsP t y1 slot ops y2 o Hb1 Hall _ E2).
+        intros cl cl' cfo Psi lupd lmut _ Efr Hcc HPsi T1. exact (tfacts_frame Psi HPsi cl lupd lmut ops cl' cfo Hcc T1 Efr).
+      + exact (all_transport cfg0 nomapsP t (StDeliver slot s2c ch w) y1 y2 o eq_refl L2 Hall E2).
+      + exact (all_transport cfg0 nomapsP t (StDrop slot s2c ch w) y1 y2 o eq_refl L2 Hall E2).
   Qed.
 
   (* ---------- no panic ---------- *)
